@@ -641,6 +641,23 @@ def optional_flag_expression(mask, log):
     return log
 
 
+def quantifier_loop(attrs, variables):
+    for key in ['edge_node', 'edge_face']:
+        if key not in attrs:
+            continue
+        if attrs[key] in variables:
+            return True
+    return False
+
+
+def quantifier_loop_all(items):
+    for item in items:
+        if item is not None:
+            if item < 0:
+                return False
+    return True
+
+
 def comprehension_negation(items, known):
     return [i for i in items if not (i not in known or i > 5)]
 
@@ -1155,6 +1172,8 @@ CASES = {
     'same_branch': [([[1], [2], [3]], {0}, {3}), ([], set(), set())],
     'optional_flag': [({'edges': [1], 'valid': True}, []), ({'edges': [], 'valid': True}, []), ({'valid': True}, []), ({'edges': [2]}, [])],
     'optional_flag_expression': [({'edges': [1], 'valid': True}, []), ({'edges': []}, []), ({'valid': True}, [])],
+    'quantifier_loop': [({'edge_face': 'ef'}, {'ef'}), ({'edge_node': 'en'}, set()), ({}, {'x'})],
+    'quantifier_loop_all': [([1, None, 2],), ([1, -1],), ([],)],
     'comprehension_negation': [([1, 2, 7, 9], {1, 7}), ([], set())],
     'expression_walrus': [({'a': 'x', 'b': 'y'}, {'x'}), ({}, {'x'})],
     'generator_helper': [([1, -1, 2],), ([],)],
